@@ -548,4 +548,307 @@ theorem list_never_headerTooShort (k : Crypto) (file : Bytes) :
       · simp [hp] at h
       · simp [hp] at h
 
+
+/-! ## `HeaderFull` and the header-entry limit -/
+
+/-- `HeaderFull` is false exactly while one more (full-size) entry still fits -/
+theorem headerFull_iff (n : Nat) : headerFull n = false ↔ n + 1 ≤ pack_MaxHeaderEntries := by
+  obtain ⟨hme, hpe, hepos, hhm⟩ := facts_maxEntries
+  unfold headerFull
+  rw [decide_eq_false_iff_not, hme, Nat.le_div_iff_mul_le hepos]
+  omega
+
+/-- a packer that holds at most `MaxHeaderEntries` blobs always fits into `MaxHeaderSize` -/
+theorem fits_of_count (bs : List Blob) (h : bs.length ≤ pack_MaxHeaderEntries) :
+    entriesSize bs + pack_headerSize ≤ pack_MaxHeaderSize := by
+  obtain ⟨hme, hpe, hepos, hhm⟩ := facts_maxEntries
+  have h1 := entriesSize_le bs
+  have h2 : bs.length * pack_entrySize ≤ pack_MaxHeaderEntries * pack_entrySize := Nat.mul_le_mul_right _ h
+  have h3 : pack_MaxHeaderEntries * pack_entrySize ≤ pack_MaxHeaderSize - pack_headerSize := by
+    rw [hme]; exact Nat.div_mul_le_self _ _
+  omega
+
+/-- so: if `HeaderFull` was false when the last blob was added, `Finalize` will not hit the limit -/
+theorem fits_of_not_full (bs : List Blob) (hne : bs ≠ []) (h : headerFull (bs.length - 1) = false) :
+    entriesSize bs + pack_headerSize ≤ pack_MaxHeaderSize := by
+  apply fits_of_count
+  have := (headerFull_iff _).1 h
+  have : 0 < bs.length := List.length_pos_iff.2 hne
+  omega
+
+/-- the limit is tight for compressed entries: one entry more than `MaxHeaderEntries` does not fit -/
+theorem over_limit (bs : List Blob) (hc : ∀ b ∈ bs, b.ulen ≠ 0) (h : pack_MaxHeaderEntries < bs.length) :
+    pack_MaxHeaderSize < entriesSize bs + pack_headerSize := by
+  obtain ⟨hme, hpe, hepos, hhm⟩ := facts_maxEntries
+  have hes : entriesSize bs = bs.length * pack_entrySize := by
+    induction bs with
+    | nil => simp [entriesSize]
+    | cons b bs ih =>
+      have hb := hc b (List.mem_cons_self ..)
+      simp only [entriesSize, entrySizeOf, hb, ne_eq, not_false_eq_true, if_true, List.length_cons,
+        Nat.add_mul, Nat.one_mul]
+      by_cases hl : pack_MaxHeaderEntries < bs.length
+      · rw [ih (fun b' hb' => hc b' (List.mem_cons_of_mem _ hb')) hl]; omega
+      · -- induction hypothesis not applicable: prove the size formula directly
+        clear ih
+        have : ∀ l : List Blob, (∀ b ∈ l, b.ulen ≠ 0) → entriesSize l = l.length * pack_entrySize := by
+          intro l
+          induction l with
+          | nil => intro _; simp [entriesSize]
+          | cons a l ih2 =>
+            intro hl2
+            simp only [entriesSize, entrySizeOf, hl2 a (List.mem_cons_self ..), ne_eq, not_false_eq_true, if_true,
+              List.length_cons, Nat.add_mul, Nat.one_mul, ih2 (fun b' hb' => hl2 b' (List.mem_cons_of_mem _ hb'))]
+            omega
+        rw [this bs (fun b' hb' => hc b' (List.mem_cons_of_mem _ hb'))]; omega
+  rw [hes]
+  have h1 : (pack_MaxHeaderEntries + 1) * pack_entrySize ≤ bs.length * pack_entrySize :=
+    Nat.mul_le_mul_right _ h
+  have h2 : pack_MaxHeaderSize - pack_headerSize < (pack_MaxHeaderEntries + 1) * pack_entrySize := by
+    rw [hme]
+    have := Nat.div_add_mod (pack_MaxHeaderSize - pack_headerSize) pack_entrySize
+    have hm := Nat.mod_lt (pack_MaxHeaderSize - pack_headerSize) hepos
+    rw [Nat.add_mul, Nat.one_mul, Nat.mul_comm]
+    omega
+  omega
+
+/-- **A header beyond the limit is never written**: `Finalize` fails ("header decoding failed")
+whenever the entries exceed `MaxHeaderSize`. -/
+theorem finalize_overfull (k : Crypto) (hk : Crypto.Lawful k) (nonce : Bytes) (bs : List Blob)
+    (hn : nonce.length = crypto_ivSize) (hwf : AllWF bs)
+    (hover : pack_MaxHeaderSize < entriesSize bs + pack_headerSize)
+    (h32 : entriesSize bs + pack_headerSize < 4294967296) :
+    finalize k nonce bs = .err .verifyDecode := by
+  obtain ⟨h4, hplain, hentry, hhs, hext, hmin, hmax32, _⟩ := facts_layout
+  have hminmax : pack_minFileSize ≤ pack_MaxHeaderSize := by decide
+  obtain ⟨header, hm⟩ := makeHeader_isSome bs hwf
+  have hhl := makeHeader_length bs hwf header hm
+  unfold finalize
+  simp only [hm]
+  generalize hsealed : nonce ++ k.sealB nonce header = sealed
+  have hL : sealed.length = header.length + crypto_Extension := by
+    rw [← hsealed]; simp only [List.length_append, hk.seal_len, hn]; omega
+  generalize henc : sealed ++ le32 sealed.length = enc
+  have hel : enc.length = sealed.length + 4 := by rw [← henc]; simp [le32_length]
+  have hho : headerOf enc = .err .hlenLargerThanMax := by
+    unfold headerOf
+    have hd : enc.drop (enc.length - pack_headerLengthSize) = le32 sealed.length := by
+      rw [← henc]
+      have : (sealed ++ le32 sealed.length).length - pack_headerLengthSize = sealed.length := by
+        simp only [List.length_append, le32_length]; omega
+      rw [this, List.drop_left]
+    simp only [hd]
+    rw [unle32_le32_of_lt _ (by omega)]
+    have c0 : ¬ enc.length < pack_minFileSize := by omega
+    have c1 : ¬ sealed.length = 0 := by omega
+    have c2 : ¬ sealed.length < crypto_Extension := by omega
+    have c3 : ¬ sealed.length + pack_headerLengthSize > enc.length := by omega
+    have c4 : sealed.length + pack_headerLengthSize > pack_MaxHeaderSize := by omega
+    simp only [c0, c1, c2, c3, c4, if_false, if_true]
+  unfold verifyHeader
+  rw [list_of_headerOf_err k enc _ hho]
+
+/-! ## `Finalize` only ever writes a header that lists back (no law about the cipher needed) -/
+
+theorem zip_all_eq (as bs : List Blob) (hl : as.length = bs.length)
+    (h : (as.zip bs).all (fun p => p.1 == p.2) = true) : as = bs := by
+  induction as generalizing bs with
+  | nil => cases bs with
+    | nil => rfl
+    | cons b bs => simp at hl
+  | cons a as ih =>
+    cases bs with
+    | nil => simp at hl
+    | cons b bs =>
+      simp only [List.zip_cons_cons, List.all_cons, Bool.and_eq_true, beq_iff_eq] at h
+      simp only [List.length_cons, Nat.add_right_cancel_iff] at hl
+      rw [h.1, ih bs hl h.2]
+
+/-- **Verify-before-write.** Whatever the cipher does: if `Finalize` returns bytes to append, then
+`List` on exactly those bytes returns exactly the packer's blobs, every blob is representable
+(data/tree type, 32-byte id, 32-bit lengths) and the offsets are cumulative. -/
+theorem finalize_sound (k : Crypto) (nonce : Bytes) (bs : List Blob) (h : Bytes)
+    (hf : finalize k nonce bs = .ok h) :
+    list k h h.length = .ok (bs, h.length % 4294967296) ∧ AllWF bs ∧ withOffsets 0 bs = bs := by
+  unfold finalize at hf
+  cases hm : makeHeader bs with
+  | none => simp [hm] at hf
+  | some header =>
+    simp only [hm] at hf
+    generalize nonce ++ k.sealB nonce header ++ le32 (nonce ++ k.sealB nonce header).length = enc at hf
+    cases hv : verifyHeader k enc bs with
+    | panic => simp [hv] at hf
+    | err e => simp [hv] at hf
+    | ok u =>
+      simp only [hv, Res.ok.injEq] at hf
+      subst hf
+      unfold verifyHeader at hv
+      cases hl : list k enc enc.length with
+      | panic => simp [hl] at hv
+      | err e => simp [hl] at hv
+      | ok r =>
+        obtain ⟨decoded, hs⟩ := r
+        simp only [hl] at hv
+        by_cases c1 : hs ≠ enc.length % 4294967296
+        · simp [c1] at hv
+        · simp only [c1, if_false] at hv
+          by_cases c2 : decoded.length ≠ bs.length
+          · simp [c2] at hv
+          · simp only [c2, if_false] at hv
+            by_cases c3 : (decoded.zip bs).all (fun p => p.1 == p.2) = true
+            · have heq := zip_all_eq decoded bs (by simpa using c2) c3
+              subst heq
+              obtain ⟨_, _, _, _, _, _, _, _, _, _, hwf, hoff⟩ := list_ok_authentic k enc decoded hs hl
+              have : hs = enc.length % 4294967296 := by simpa using c1
+              exact ⟨by rw [this], hwf, hoff⟩
+            · simp [c3] at hv
+
+/-- **Wide lengths are caught** (`finalize_rejects_wide`): a blob whose stored or uncompressed length
+does not fit into 32 bits, whose type is not data/tree, or a packer with inconsistent offsets never
+yields a pack — the truncating `uint32` conversion in `makeHeader` is caught by `verifyHeader`. -/
+theorem finalize_rejects_wide (k : Crypto) (nonce : Bytes) (bs : List Blob)
+    (hbad : (∃ b ∈ bs, 4294967296 ≤ b.length ∨ 4294967296 ≤ b.ulen ∨
+              ¬ (b.type = restic_DataBlob ∨ b.type = restic_TreeBlob)) ∨ withOffsets 0 bs ≠ bs) :
+    ∀ h, finalize k nonce bs ≠ .ok h := by
+  intro h hf
+  obtain ⟨_, hwf, hoff⟩ := finalize_sound k nonce bs h hf
+  rcases hbad with ⟨b, hb, hbad⟩ | hbad
+  · have := hwf b hb
+    rcases hbad with h1 | h1 | h1
+    · have := this.length; omega
+    · have := this.ulen; omega
+    · exact h1 this.type
+  · exact hbad hoff
+
+/-! ## Link to the executable statements used by the driver -/
+
+theorem offsetsOK_iff (pos : Nat) (bs : List Blob) : offsetsOK pos bs = true ↔ withOffsets pos bs = bs := by
+  induction bs generalizing pos with
+  | nil => simp [offsetsOK, withOffsets]
+  | cons b bs ih =>
+    simp only [offsetsOK, withOffsets, Bool.and_eq_true, beq_iff_eq, ih, List.cons.injEq]
+    constructor
+    · rintro ⟨h1, h2⟩; exact ⟨by cases b; simp_all, h2⟩
+    · rintro ⟨h1, h2⟩; exact ⟨by cases b; simp_all, h2⟩
+
+/-- `Finalize` succeeds exactly for representable packer contents: the model meets `specFinalize`
+(for headers below 4 GiB, i.e. fewer than about 10⁸ entries). -/
+theorem finalize_spec (k : Crypto) (hk : Crypto.Lawful k) (nonce : Bytes) (bs : List Blob)
+    (hn : nonce.length = crypto_ivSize) (h32 : entriesSize bs + pack_headerSize < 4294967296) :
+    specFinalize bs (match finalize k nonce bs with | .ok _ => true | _ => false) = true := by
+  obtain ⟨h4, hplain, hentry, hhs, hext, hmin, hmax32, _⟩ := facts_layout
+  unfold specFinalize
+  by_cases hr : representable bs = true
+  · -- representable ⇒ Finalize succeeds
+    rw [hr]
+    unfold representable at hr
+    simp only [Bool.and_eq_true, Bool.not_eq_true', List.all_eq_true, Bool.or_eq_true, beq_iff_eq,
+      decide_eq_true_eq] at hr
+    obtain ⟨⟨⟨hne, hall⟩, hoff⟩, hsz⟩ := hr
+    have hwf : AllWF bs := fun b hb => by
+      obtain ⟨⟨⟨h1, h2⟩, h3⟩, h4⟩ := hall b hb
+      exact ⟨h1, h2, h3, h4⟩
+    have hne' : bs ≠ [] := by intro h; simp [h] at hne
+    rw [calculateHeaderSize_eq] at hsz
+    obtain ⟨header, _, hfin⟩ := finalize_ok k hk nonce bs hn hwf hne' ((offsetsOK_iff 0 bs).1 hoff) (by omega)
+    simp [hfin]
+  · -- not representable ⇒ Finalize fails
+    have hr' : representable bs = false := by simpa using hr
+    rw [hr']
+    cases hf : finalize k nonce bs with
+    | panic => simp
+    | err e => simp
+    | ok h =>
+      exfalso
+      obtain ⟨hl, hwf, hoff⟩ := finalize_sound k nonce bs h hf
+      apply hr
+      unfold representable
+      simp only [Bool.and_eq_true, Bool.not_eq_true', List.all_eq_true, Bool.or_eq_true, beq_iff_eq,
+        decide_eq_true_eq]
+      refine ⟨⟨⟨?_, fun b hb => ⟨⟨⟨(hwf b hb).type, (hwf b hb).id⟩, (hwf b hb).length⟩, (hwf b hb).ulen⟩⟩,
+        (offsetsOK_iff 0 bs).2 hoff⟩, ?_⟩
+      · -- non-empty: an empty packer yields a file shorter than the minimum
+        cases bs with
+        | cons b bs => rfl
+        | nil =>
+          exfalso
+          simp only [finalize, makeHeader] at hf
+          have hlen : (nonce ++ k.sealB nonce [] ++ le32 (nonce ++ k.sealB nonce []).length).length < pack_minFileSize := by
+            simp only [List.length_append, le32_length, hk.seal_len, hn, List.length_nil]; omega
+          unfold verifyHeader at hf
+          rw [list_too_short k _ hlen] at hf
+          simp at hf
+      · rw [calculateHeaderSize_eq]
+        by_cases hover : pack_MaxHeaderSize < entriesSize bs + pack_headerSize
+        · rw [finalize_overfull k hk nonce bs hn hwf hover h32] at hf
+          cases hf
+        · omega
+
+/-- the conclusion of `list_finalize` is exactly what `specListing` checks on the implementation -/
+theorem list_finalize_spec (k : Crypto) (hk : Crypto.Lawful k) (nonce : Bytes) (adds : List AddCall)
+    (hn : nonce.length = crypto_ivSize) (hne : adds ≠ []) (hok : ∀ a ∈ adds, AddOK a)
+    (hmax : entriesSize (addAll {} adds).blobs + pack_headerSize ≤ pack_MaxHeaderSize) :
+    ∃ p' es hs, (addAll {} adds).finalize k nonce = .ok p' ∧ list k p'.out p'.out.length = .ok (es, hs) ∧
+      specListing (adds.map fun a => (a.1, a.2.1, a.2.2.1.length, a.2.2.2)) p'.out.length es hs = true := by
+  obtain ⟨p', hfin, _, hl, hlen, _, _⟩ := list_finalize k hk nonce adds hn hne hok hmax
+  refine ⟨p', _, _, hfin, hl, ?_⟩
+  unfold specListing
+  have hsum : ∀ (l : List (Nat × Bytes × Nat × Nat)) (pos s : Nat),
+      l.foldl (fun s a => s + a.2.2.1) s = s + totalLength (expectedListing pos l) := by
+    intro l
+    induction l with
+    | nil => intro pos s; simp [expectedListing, totalLength]
+    | cons a l ih =>
+      intro pos s
+      obtain ⟨t, id, len, ulen⟩ := a
+      simp only [List.foldl_cons, expectedListing, totalLength, ih (pos + len) (s + len)]
+      omega
+  simp only [beq_self_eq_true, Bool.true_and, Bool.and_eq_true, beq_iff_eq]
+  refine ⟨?_, ?_⟩
+  · rw [hsum _ 0 0, hlen]; omega
+  · rw [calculateHeaderSize_eq]
+
+
+/-! ## Non-vacuity -/
+
+/-- a toy cipher satisfying the laws: the "ciphertext" is the plaintext followed by 16 zero bytes -/
+def toyCrypto : Crypto where
+  sealB := fun _ p => p ++ List.replicate crypto_macSize 0
+  openB := fun _ ct => if crypto_macSize ≤ ct.length ∧ ct.drop (ct.length - crypto_macSize) = List.replicate crypto_macSize 0
+    then some (ct.take (ct.length - crypto_macSize)) else none
+
+theorem toyCrypto_lawful : Crypto.Lawful toyCrypto where
+  open_seal := by intro n p _; simp [toyCrypto]
+  seal_len := by intro n p; simp [toyCrypto]
+
+/-- two `Add` calls (a plain data blob and a compressed tree blob) used in the examples below -/
+def exampleAdds : List AddCall :=
+  [(restic_DataBlob, List.replicate 32 7, [1, 2, 3], 0), (restic_TreeBlob, List.replicate 32 9, [4], 70000)]
+
+/-- the hypotheses of `list_finalize` are satisfiable by a non-trivial packer -/
+example : Crypto.Lawful toyCrypto ∧ (List.replicate 16 (1 : UInt8)).length = crypto_ivSize ∧ exampleAdds ≠ [] ∧
+    (∀ a ∈ exampleAdds, AddOK a) ∧
+    entriesSize (addAll {} exampleAdds).blobs + pack_headerSize ≤ pack_MaxHeaderSize := by
+  refine ⟨toyCrypto_lawful, by decide, by decide, ?_, by decide⟩
+  intro a ha
+  simp only [exampleAdds, List.mem_cons, List.not_mem_nil, or_false] at ha
+  rcases ha with rfl | rfl <;> (unfold AddOK; decide)
+
+/-- example (labelled as such): the model lists that pack back, with offsets 0 and 3 and header size 36+37+41 -/
+example : ((addAll {} exampleAdds).finalize toyCrypto (List.replicate 16 1)).rec
+    (fun p' => (list toyCrypto p'.out p'.out.length).rec (fun r => (r.1.map (·.offset), r.2)) (fun _ => ([], 0)) ([], 0))
+    (fun _ => ([], 0)) ([], 0) = ([0, 3], 114) := by decide
+
+/-- example: `HeaderFull` flips exactly at `MaxHeaderEntries` -/
+example : headerFull (pack_MaxHeaderEntries - 1) = false ∧ headerFull pack_MaxHeaderEntries = true := by decide
+
+/-- example: 80 zero bytes are rejected because the length field is zero; 10 bytes are too short -/
+example : list toyCrypto (List.replicate 80 0) 80 = .err .hlenZero ∧
+    list toyCrypto (List.replicate 10 0) 10 = .err .fileTooShort := by decide
+
+/-- example: a blob with a 2³² uncompressed length is refused by `Finalize` -/
+example : ∀ h, finalize toyCrypto (List.replicate 16 1)
+    [{ type := restic_DataBlob, id := List.replicate 32 0, length := 5, offset := 0, ulen := 4294967296 }] ≠ .ok h :=
+  finalize_rejects_wide _ _ _ (Or.inl ⟨_, List.mem_cons_self .., Or.inr (Or.inl (Nat.le_refl _))⟩)
+
 end Restic.Props.C06
